@@ -21,7 +21,7 @@ RULE = ('programs from vlib.writerprog.gen_program; non-trivial = >=2 accepted s
         'property; distinct = (per-session per-segment object kinds/data kinds/lengths, property notes)')
 ASSUMPTIONS = ['Python int lists must come back as an integer dtype holding all values (not a specific one)',
                'empty arrays of dtypes without a TDMS mapping carry no type requirement']
-REQUIRED = ['objects_from_another_file', 'programs', 'segments_accepted', 'channels_compared', 'props_compared', 'prop_types_observed', 'append_sessions', 'path_targets',
+REQUIRED = ['read_back_through_writer_index', 'objects_from_another_file', 'programs', 'segments_accepted', 'channels_compared', 'props_compared', 'prop_types_observed', 'append_sessions', 'path_targets',
             'names_checked']
 N = {'quick': 8000, 'thorough': 100000}
 
@@ -91,6 +91,20 @@ def run_case(case, ctx):
     if multi or boundary:
         ctx.distinct(repr(prog.describe()['sessions'])[:4000])
     check_readback(ctx, prog, data, shadow)
+    if prog.target == 'path' and prog.index:
+        # the writer's own index file sits beside the data file: reading by path goes through it
+        import os
+        from nptdms import TdmsFile
+        path = os.path.join(ctx.tmpdir, 'prog.tdms')
+        ctx.count('read_back_through_writer_index')
+        try:
+            a = C.snapshot(TdmsFile.read(io.BytesIO(data)))
+            b = C.snapshot(TdmsFile.read(path))
+            diffs = C.snapshot_diff(a, b)
+            if diffs:
+                ctx.violation('read-through-writer-index-differs/%s' % diffs[0][0], {'diffs': diffs[:3], 'program': prog.describe()})
+        except Exception as ex:
+            ctx.violation('read-through-writer-index-raises/%s' % util.exc_key(ex), {'exc': util.exc_detail(ex), 'program': prog.describe()})
 
 
 def check_readback(ctx, prog, data, shadow, where='read'):
